@@ -451,6 +451,49 @@ func (tt *TermTable) Eq(a, b *Term) *Term {
 	return tt.mk(&Term{op: OEq, sort: BoolSort, args: []*Term{a, b}})
 }
 
+// constLeaves returns the number of leaves if t is an ite-tree whose leaves are all
+// constants (0 otherwise).
+func constLeaves(t *Term, budget int) int {
+	if t.IsConst() {
+		return 1
+	}
+	if t.op != OIte || budget <= 0 {
+		return 0
+	}
+	l := constLeaves(t.args[1], budget-1)
+	if l == 0 {
+		return 0
+	}
+	r := constLeaves(t.args[2], budget-1)
+	if r == 0 {
+		return 0
+	}
+	return l + r
+}
+
+// MapConstIte applies f to every constant leaf of an ite-tree of constants.
+func (tt *TermTable) MapConstIte(t *Term, f func(*Term) *Term) *Term {
+	if t.IsConst() {
+		return f(t)
+	}
+	return tt.Ite(t.args[0], tt.MapConstIte(t.args[1], f), tt.MapConstIte(t.args[2], f))
+}
+
+// liftBin distributes a binary operation over ite-trees of constants (keeps loop
+// indexes that were merged from concrete values as trees of constants).
+func (tt *TermTable) liftBin(a, b *Term, f func(x, y *Term) *Term) *Term {
+	if a.IsConst() && b.IsConst() {
+		return nil
+	}
+	la, lb := constLeaves(a, 5), constLeaves(b, 5)
+	if la == 0 || lb == 0 || la*lb > 24 {
+		return nil
+	}
+	return tt.MapConstIte(a, func(x *Term) *Term {
+		return tt.MapConstIte(b, func(y *Term) *Term { return f(x, y) })
+	})
+}
+
 // BvBin builds a binary bit-vector operation (arith/logic returning BV).
 func (tt *TermTable) BvBin(op Op, a, b *Term) *Term {
 	if a.sort != b.sort || a.sort.K != SBV {
@@ -530,6 +573,11 @@ func (tt *TermTable) BvBin(op Op, a, b *Term) *Term {
 			panic("bvbin fold")
 		}
 		return tt.BV(w, r)
+	}
+	if (a.op == OIte || b.op == OIte) && op != OBvUDiv && op != OBvURem && op != OBvSDiv && op != OBvSRem {
+		if r := tt.liftBin(a, b, func(x, y *Term) *Term { return tt.BvBin(op, x, y) }); r != nil {
+			return r
+		}
 	}
 	// algebraic simplifications
 	switch op {
@@ -654,6 +702,11 @@ func (tt *TermTable) BvCmp(op Op, a, b *Term) *Term {
 	}
 	if a == b {
 		return tt.Bool(op == OBvUle || op == OBvSle)
+	}
+	if a.op == OIte || b.op == OIte {
+		if r := tt.liftBin(a, b, func(x, y *Term) *Term { return tt.BvCmp(op, x, y) }); r != nil {
+			return r
+		}
 	}
 	switch op {
 	case OBvUlt:
